@@ -521,6 +521,26 @@ func (r *reader) Delete(rs *segment.RewriteSegment) (*reader, error) {"""), ("pk
 			break
 		}
 		next, err := r.reader(position, &msgs[i])""")]),
+ ("rollover test inlined in Publish; current reader found by index; header flags through locals", [("log.go", """	if l.writer.NeedsRollover(l.opts.Rollover) {
+		oldWriter := l.writer""", """	if l.writer.index.Len() > 0 && l.writer.messages.Size() > l.opts.Rollover {
+		oldWriter := l.writer"""), ("log.go", """	for _, r := range l.readers {
+		if r.segment == rdr.segment {
+			current = r
+		}
+	}
+	if current == nil {""", """	for i := range l.readers {
+		if l.readers[i].segment == rdr.segment {
+			current = l.readers[i]
+			break
+		}
+	}
+	if current == nil {"""), ("pkg/index/format.go", """	case opts.Times != ((data[1] & timesBit) == timesBit):
+		return VUnknown, errTimesMismatch
+	case opts.Keys != ((data[1] & keysBit) == keysBit):
+		return VUnknown, errKeysMismatch""", """	case opts.Times != (data[1]&timesBit != 0):
+		return VUnknown, errTimesMismatch
+	case (data[1]&keysBit != 0) != opts.Keys:
+		return VUnknown, errKeysMismatch""")]),
 ]
 
 def main():
